@@ -716,6 +716,9 @@ def shards(tier, seed):
 
 # ------------------------------------------------------------------ signatures
 
+# generous watchdog: the box is shared; a shard is 2-40 s of CPU on an idle core
+SHARD_TIMEOUT = dict(quick=1800, thorough=7200)
+
 _MIN = {}
 
 
